@@ -34,6 +34,8 @@ PosTags(pos, L) ==
      \cup T(L = {} /\ chk, "checkmate")
      \cup T(L = {} /\ ~chk, "stalemate")
      \cup T(Cardinality(L) = 1, "single-legal-move")
+     \* both sides are forced for two plies in a row (fortresses, ladders): search depth bookkeeping
+     \cup T(Cardinality(L) = 1 /\ \A m \in L : Cardinality(Legal(Succ(pos, m))) = 1, "forced-line")
      \cup T((ksFree \/ qsFree) /\ chk, "castle-out-of-check")
      \cup T(~chk /\ ((ksFree /\ AttackedBy(b, e+1, o)) \/ (qsFree /\ AttackedBy(b, e-1, o))), "castle-transit-attacked")
      \cup T(~chk /\ ((ksFree /\ ~AttackedBy(b, e+1, o) /\ AttackedBy(b, e+2, o))
